@@ -959,6 +959,7 @@ func inFlowLayout(context *layoutContext, box_ bo.Box, index int, child_ Box, ne
 				// fits: its own layout keeps its first content on the page, so
 				// progress is guaranteed.)
 				removePlaceholders(context, []Box{newChild_}, absoluteBoxes, fixedBoxes)
+				pageBottomSpace := bottomSpace
 				bottomSpace += newChild.PaddingBottom.V() + newChild.BorderBottomWidth.V()
 
 				newChild_, tmp, maxLines = blockLevelLayout(context, child_.(bo.BlockLevelBoxITF), bottomSpace, skipStack,
@@ -968,6 +969,12 @@ func inFlowLayout(context *layoutContext, box_ bo.Box, index int, child_ Box, ne
 				if newChild_ != nil {
 					newChild = newChild_.Box()
 					positionY = (newChild.BorderBoxY() + newChild.BorderHeight())
+					if canBreak && resumeAt == nil && context.overflowsPage(pageBottomSpace, positionY) {
+						// The child could not be shortened (no break point inside) and its
+						// border box still overflows: display it on the next page.
+						removePlaceholders(context, []Box{newChild_}, absoluteBoxes, fixedBoxes)
+						newChild_ = nil
+					}
 				}
 			} else {
 				positionY = newPositionY
